@@ -1,0 +1,10 @@
+//go:build verif
+
+package process
+
+// VerifLen returns the sizes of the store's per-process maps: values, in-flight initialisers, waiters.
+func (l *Local[T]) VerifLen() (eager, lazy, storeHooks int) {
+	l.mu.RLock()
+	defer l.mu.RUnlock()
+	return len(l.eager), len(l.lazy), len(l.storeHooks)
+}
